@@ -91,18 +91,30 @@ func (w *world) check(after string) {
 		if string(a.p.Data()) != string(a.want) {
 			w.fail("live-packet-corrupted", fmt.Sprintf("after %s: packet #%d (len %d) no longer reads the bytes it was decoded from (first byte %#x, want %#x)", after, a.id, len(a.want), first(a.p.Data()), first(a.want)))
 		}
-		if a.block == nil {
-			continue
-		}
+		_, aPooled := a.p.(gopacket.PooledPacket)
 		for _, b := range w.pk[i+1:] {
-			if b.disposed || b.block == nil {
+			if b.disposed {
 				continue
 			}
-			if a.block == b.block || unsafe.SliceData(*a.block) == unsafe.SliceData(*b.block) {
+			if a.block != nil && b.block != nil && (a.block == b.block || unsafe.SliceData(*a.block) == unsafe.SliceData(*b.block)) {
 				w.fail("two-live-packets-share-a-block", fmt.Sprintf("after %s: packets #%d and #%d are both undisposed and share one pool block", after, a.id, b.id))
+				continue
+			}
+			// independent of the private block field: the bytes of two undisposed pooled packets
+			// must not overlap in memory
+			if _, bPooled := b.p.(gopacket.PooledPacket); aPooled && bPooled && overlap(a.p.Data(), b.p.Data()) {
+				w.fail("two-live-packets-share-a-block", fmt.Sprintf("after %s: the data of the undisposed pooled packets #%d and #%d overlaps in memory", after, a.id, b.id))
 			}
 		}
 	}
+}
+
+func overlap(x, y []byte) bool {
+	if len(x) == 0 || len(y) == 0 {
+		return false
+	}
+	x0, y0 := uintptr(unsafe.Pointer(unsafe.SliceData(x))), uintptr(unsafe.Pointer(unsafe.SliceData(y)))
+	return x0 < y0+uintptr(len(y)) && y0 < x0+uintptr(len(x))
 }
 
 func first(b []byte) byte {
